@@ -26,6 +26,26 @@ def wide_into_empty(rng):
         out.append((Case("wide%d" % j, lines, {"kinds": ["%s:%d" % (fam, n), wide]}), exp))
     return out
 
+def surround(rng):
+    """Deliberate: same-kind merges where the argument has another bin limit and lies around / beside a small receiver."""
+    out = []
+    for j in range(160):
+        fam = rng.choice(["low", "high"]); n = rng.choice([2, 3, 4, 8, 16]); m = rng.choice([n, 2 * n, 64, 1024, 1])
+        lines = ["new r %s:%d" % (fam, n), "new w %s:%d" % (fam, m)]; exp = ["ok", "ok"]
+        r, w = storegen.Shadow("%s:%d" % (fam, n)), storegen.Shadow("%s:%d" % (fam, m))
+        c = rng.randint(-200, 200)
+        for _ in range(rng.randint(0, 3)):
+            i = c + rng.randint(0, max(0, n - 2)); lines.append("add r %d" % i); exp.append("ok"); r.add(i, Fraction(1))
+        for _ in range(rng.randint(1, 5)):
+            i = c + rng.choice([-1, 1]) * rng.randint(0, 2 * n + 2) + rng.choice([0, 0, n]); wt = rng.choice([Fraction(1), Fraction(1), Fraction(5, 2)])
+            lines.append("addw w %d %s" % (i, storegen.wh(wt))); exp.append("ok"); w.add(i, wt)
+        if rng.random() < 0.3: lines += ["obs r"]; exp += [r.obsline()]
+        lines.append("merge r w"); exp.append("ok"); r.merge(w)
+        lines += ["obs r", "obs w", "layout r"]; exp += [r.obsline(), w.obsline(), None]
+        i = c + rng.randint(-n, n); lines.append("add r %d" % i); exp.append("ok"); r.add(i, Fraction(1)); lines.append("obs r"); exp.append(r.obsline())
+        out.append((Case("sur%d" % j, lines, {"kinds": ["%s:%d" % (fam, n), "%s:%d" % (fam, m)]}), exp))
+    return out
+
 def bound_oracle(case, line, answer):
     """len(bins) <= N for collapsing stores, read through the verif hook."""
     reg = line.split()[1]
@@ -49,6 +69,6 @@ def run(tier, seed):
     return storecheck.run_store_property(
         "C05", tier, seed, pool, 500 if tier == "quick" else 15000,
         "programs as for C04 over registers of collapsing kinds (N in %s) mixed with the exact kinds, pairs of different limits, plus 40 deliberate "
-        "'wider than N into an empty or cleared receiver' merges; oracle = stepwise clamp of an exact shadow map; len(bins) <= N through the hook. "
+        "'wider than N into an empty or cleared receiver' merges and 160 same-kind merges where the argument (another limit) lies around or beside a small receiver; oracle = stepwise clamp of an exact shadow map; len(bins) <= N through the hook. "
         "distinct_nontrivial as for C04" % ns,
-        extra_cases=wide_into_empty, oracle_extra=bound_oracle)
+        extra_cases=lambda rng: wide_into_empty(rng) + surround(rng), oracle_extra=bound_oracle)
